@@ -314,6 +314,28 @@ func (tree *HTree) remove(ki *KeyInfo, oldPos Position) {
 	tree.remvoeFromLeaf(&tree.ni, ki, oldPos)
 }
 
+// updatePos moves the entry of ki to newPos, but only if it still points at
+// oldPos (one atomic step under the tree lock). It is used by GC after it has
+// copied a record: a client may have overwritten or deleted the key meanwhile,
+// and then the entry must not be touched.
+func (tree *HTree) updatePos(ki *KeyInfo, oldPos, newPos Position) (updated bool) {
+	tree.Lock()
+	defer tree.Unlock()
+	var req HTreeReq
+	req.ki = ki
+	tree.getLeaf(ki, &tree.ni)
+	if !tree.leafs[tree.ni.offset].Get(&req) {
+		return false
+	}
+	if req.item.Pos != oldPos {
+		return false
+	}
+	req.item.Pos = newPos
+	tree.getLeafAndInvalidNodes(ki, &tree.ni)
+	tree.setToLeaf(&tree.ni, &req)
+	return true
+}
+
 func (tree *HTree) get(ki *KeyInfo) (meta *Meta, pos Position, found bool) {
 	var req HTreeReq
 	req.ki = ki
